@@ -48,3 +48,14 @@ Theorem C13_queries_are_translation :
       TT.lift (fun r => (TT.tr_tree t, r)) (ClosestNamedAncestor t obj).
 Proof. exact @TQ.queries_model_fuel. Qed.
 Print Assumptions C13_queries_are_translation.
+
+(** CreateDefaultScopes(tableHandle): six newNamedObject calls and five appends.  The translation carries the scope names
+    as the array literals of the source; the model reads them from the regenerated constant tree_defaultScopeNames -
+    the theorem also says the two agree.  For every tree (the call is legal on a non-empty tree too: the new scopes are
+    appended to the new root object). *)
+Theorem C13_CreateDefaultScopes_is_translation :
+  forall (V : Type) (t : ObjectTree V) (tableHandle : N),
+    go_aml_ObjectTree_CreateDefaultScopes (TT.tr_tree t) tableHandle TT.table_oracle =
+    TT.lift (fun t' => (TT.tr_tree t', tt)) (CreateDefaultScopes t tableHandle).
+Proof. exact @TQ.CreateDefaultScopes_is_translation. Qed.
+Print Assumptions C13_CreateDefaultScopes_is_translation.
